@@ -9,12 +9,12 @@ use crate::util::{guard, par_map, Kv};
 
 pub fn meta(ctx: &Ctx) -> Meta {
     Meta {
-        rule: format!("networks of depth 2..{} over count-preserving layers {{dense 4->4 (linear, ReLU), conv 1x1 / 3x3 p1, deconv 3x3 p1 on 1x2x2, feedback[dense 4]x2, max-pool 1x1 (as target), feedback[conv 1x1]x2}} from a flat and a spatial input (flat<->spatial neighbours in both directions) x EVERY index pair a <= b x all 5 accumulations, exact small-integer data: predict vs the reference interpreter; connections spanning 5..7 layers of an 8-layer network; EVERY ordered pair of connect calls on the depth-3/4 networks: pairwise distinct sources and targets must be accepted, a second connection onto a used target (or from a used source) must be rejected or both must stay visible in predict; every first connection followed by a connect call with its indices the other way round (source above target): rejected, or the first connection must still act (additive accumulation, generic data: the result must not be bit-equal to that without the first connection); THREE connect calls with pairwise distinct sources and targets on a 5-layer network (quick: every ascending triple; thorough: every ordered triple) under add and mean: accepted, all visible; additive accumulation: Network::backward vs the dual-number derivative of the reference function for every single connection, every accepted pair and every triple. Non-trivial = reference output has >= 2 distinct non-zero entries", if ctx.tier.thorough() { 4 } else { 3 }),
+        rule: format!("networks of depth 2..{} over count-preserving layers {{dense 4->4 (linear, ReLU), conv 1x1 / 3x3 p1, deconv 3x3 p1 on 1x2x2, feedback[dense 4]x2, max-pool 1x1, feedback[conv 1x1]x2}} from a flat and a spatial input (flat<->spatial neighbours in both directions) x EVERY index pair a <= b x all 5 accumulations, exact small-integer data: predict vs the reference interpreter; connections spanning 5..7 layers of an 8-layer network; EVERY ordered pair of connect calls on the depth-3/4 networks: pairwise distinct sources and targets must be accepted, a second connection onto a used target (or from a used source) must be rejected or both must stay visible in predict; every first connection followed by a connect call with its indices the other way round (source above target): rejected, or the first connection must still act (additive accumulation, generic data: the result must not be bit-equal to that without the first connection); THREE connect calls with pairwise distinct sources and targets on a 5-layer network (quick: every ascending triple; thorough: every ordered triple) under add and mean: accepted, all visible; additive accumulation: Network::backward vs the dual-number derivative of the reference function for every single connection, every accepted pair and every triple. Non-trivial = reference output has >= 2 distinct non-zero entries", if ctx.tier.thorough() { 4 } else { 3 }),
         bound: "depth <= 4 (5 for triples, 8 for long spans), element count 4, at most three connections".into(),
         exhaustive: true,
         assumptions: vec![
             "when the source layer is itself a target, its ordinary or its combined input are both accepted as 'the input that was fed to layer a'".into(),
-            "max-pool sources are rejected loudly by connect() and are not explored".into(),
+            "a max-pool layer is explored as target and as source of a connection (1x1 window, so that element counts match)".into(),
         ],
     }
 }
@@ -27,15 +27,15 @@ fn alphabet() -> Vec<L> {
         L::Conv { f: 1, k: (3, 3), s: (1, 1), p: (1, 1), d: (1, 1), act: Act::Relu, drop: None },
         L::Deconv { f: 1, k: (3, 3), s: (1, 1), p: (1, 1), act: Act::Linear, drop: None },
         L::Fb { layers: vec![L::Dense { n: 4, act: Act::Linear, bias: true, drop: None }], loops: 2, inskips: false, outskips: false, acc: Acc::Add },
-        // a max-pool (as a TARGET of a connection; as a source the library refuses it loudly) and a block of spatial layers
+        // a max-pool and a block of spatial layers
         L::Pool { k: (1, 1), s: (1, 1) },
         L::Fb { layers: vec![L::Conv { f: 1, k: (1, 1), s: (1, 1), p: (0, 0), d: (1, 1), act: Act::Linear, drop: None }], loops: 2, inskips: false, outskips: false, acc: Acc::Add },
     ]
 }
 
-/// connect() refuses a max-pool layer as the source of a connection ("Unknown shape!"): not explored
-fn source_ok(net: &Net, a: usize) -> bool {
-    !matches!(net.layers.get(a), Some(L::Pool { .. }))
+/// every layer kind may be the source of a connection (a max-pool source used to be refused: "Unknown shape!")
+fn source_ok(_net: &Net, _a: usize) -> bool {
+    true
 }
 
 pub fn base_nets(max_depth: usize) -> Vec<Net> {
